@@ -232,7 +232,10 @@ def spaces(tier, seed):
     out = []
     if tier == 'quick':
         al = S.alphabet(5)
-        out.append(ProductSpace('W(5,5)xopts', S.word_dims(al, 5) + [OPT_Q], eval_pipeline,
+        out.append(ProductSpace('W(4,5)xopts2', S.word_dims(S.alphabet(4), 5) + [OPT_Q[8:]], eval_pipeline,
+                                bounds={'letters': S.alphabet(4), 'option_sets': len(OPT_Q[8:])},
+                                describe='integer dtype and drifting inputs'))
+        out.append(ProductSpace('W(5,5)xopts', S.word_dims(al, 5) + [OPT_Q[:8]], eval_pipeline,
                                 bounds={'letters': al, 'option_sets': len(OPT_Q)},
                                 describe='all 5-letter words x centring x samples on/off x filter/boundary deviations'))
         out.append(ProductSpace('helpers{-1,0,2}^6', [[-1, 0, 2]] * 6, eval_helpers,
